@@ -65,7 +65,7 @@ type Proxy struct {
 // scratchPrefix names the temporary log directory (/tmp/<prefix>-*), removed by Close.
 func StartProxy(scratchPrefix string, nss ...*models.Namespace) (*Proxy, error) {
 	removeStaleScratch(scratchPrefix)
-	dir, err := os.MkdirTemp("", scratchPrefix+"-")
+	dir, err := os.MkdirTemp(scratchRoot(), scratchPrefix+"-")
 	if err != nil {
 		return nil, err
 	}
@@ -121,7 +121,7 @@ func StartProxy(scratchPrefix string, nss ...*models.Namespace) (*Proxy, error) 
 // removeStaleScratch deletes scratch directories of earlier runs that ended without Close
 // (engine error, killed process): /tmp/<prefix>-<digits> not modified for 30 minutes.
 func removeStaleScratch(prefix string) {
-	ms, _ := filepath.Glob(filepath.Join(os.TempDir(), prefix+"-[0-9]*"))
+	ms, _ := filepath.Glob(filepath.Join(scratchRoot(), prefix+"-[0-9]*"))
 	for _, m := range ms {
 		if fi, err := os.Stat(m); err == nil && fi.IsDir() && time.Since(fi.ModTime()) > 30*time.Minute {
 			os.RemoveAll(m)
@@ -334,4 +334,13 @@ func (c *Child) Close() {
 	}
 	c.cmd.Process.Kill()
 	<-c.exited
+}
+
+// scratchRoot is the directory for per-run scratch files: the check's build directory
+// under /verif/.build when run through ./check, else the system temp directory.
+func scratchRoot() string {
+	if d := os.Getenv("VERIF_BUILD_DIR"); d != "" {
+		return d
+	}
+	return os.TempDir()
 }
